@@ -271,3 +271,49 @@ class _CondTemp(ast.NodeTransformer):
 TRANSFORMS["augassign"] = _apply(_AugAssign)
 TRANSFORMS["else-after-return"] = _apply(_ElseAfterReturn)
 TRANSFORMS["cond-temp"] = _apply(_CondTemp)
+
+
+class _KwToPos(ast.NodeTransformer):
+    """np.concatenate(xs, axis=1) -> np.concatenate(xs, 1); pd.Series(x, index=i) -> pd.Series(x, i); ... for externals whose
+    leading parameters are stable (same table as the analyser's EXT_SIGS, matched by `np.` / `pd.` attribute name)."""
+
+    SIGS = {("np", "concatenate"): ("arrays", "axis"), ("pd", "Series"): ("data", "index"), ("pd", "DataFrame"): ("data", "index", "columns"),
+            ("np", "around"): ("a", "decimals"), ("np", "clip"): ("a", "a_min", "a_max"), ("np", "quantile"): ("a", "q", "axis"),
+            ("np", "nanquantile"): ("a", "q", "axis"), ("np", "amin"): ("a", "axis"), ("np", "searchsorted"): ("a", "v", "side")}
+
+    def visit_Call(self, n):
+        self.generic_visit(n)
+        f = n.func
+        if isinstance(f, ast.Attribute) and isinstance(f.value, ast.Name) and (f.value.id, f.attr) in self.SIGS \
+                and not any(isinstance(a, ast.Starred) for a in n.args) and all(k.arg for k in n.keywords):
+            sig = self.SIGS[(f.value.id, f.attr)]
+            kws = {k.arg: k for k in n.keywords}
+            while len(n.args) < len(sig) and sig[len(n.args)] in kws:
+                k = kws.pop(sig[len(n.args)])
+                n.args.append(k.value)
+                n.keywords.remove(k)
+        return n
+
+
+TRANSFORMS["kw-to-pos"] = _apply(_KwToPos)
+
+
+class _PosToKw(ast.NodeTransformer):
+    """the reverse of kw-to-pos: positional arguments after the first become keywords (pd.Series(x, i) -> pd.Series(x, index=i))"""
+
+    SIGS = _KwToPos.SIGS
+
+    def visit_Call(self, n):
+        self.generic_visit(n)
+        f = n.func
+        if isinstance(f, ast.Attribute) and isinstance(f.value, ast.Name) and (f.value.id, f.attr) in self.SIGS \
+                and not any(isinstance(a, ast.Starred) for a in n.args) and all(k.arg for k in n.keywords):
+            sig = self.SIGS[(f.value.id, f.attr)]
+            if 1 < len(n.args) <= len(sig):
+                extra = n.args[1:]
+                n.args = n.args[:1]
+                n.keywords = [ast.keyword(arg=sig[i + 1], value=v) for i, v in enumerate(extra)] + n.keywords
+        return n
+
+
+TRANSFORMS["pos-to-kw"] = _apply(_PosToKw)
